@@ -846,8 +846,8 @@ func checkC04(c *Ctx) {
 	r.Assumptions = []string{"fc emits literals and the counted constructs of a definition in source order (confirmed on all shipped definitions by this very rule)"}
 	r.Rule("C04.a", "file sets agree (recipes ↔ sources ↔ generated files)", 30)
 	r.Rule("C04.b", "ordered declaration tables agree for every pair", 30)
-	r.Rule("C04.c", "per-definition literal sequences and construct counts agree", 400)
-	r.Rule("C04.c3", "per-definition ordered skeletons (identifiers outside type positions, operators, literals, if/match/not/pipe constructs) agree", 400)
+	r.Rule("C04.c", "per-definition literal sequences and construct counts agree", 330)
+	r.Rule("C04.c3", "per-definition ordered skeletons (identifiers outside type positions, operators, literals, if/match/not/pipe constructs) agree", 330)
 	r.Rule("C04.i", "every unqualified record literal has the field names of exactly one record type of its program (otherwise its type is the compiler's tie-break and regeneration may name another type); no composite literal of a generated file has an elided type (fc never emits one; gofmt -s does) and no generated file has a comment", 40)
 	r.Rule("C04.h", "the compiler-generated switch temporaries of every generated file are numbered _v1, _v2, … in file order (what the emission counter yields)", 30)
 	r.Rule("C04.lex", "the hand-written lexer of fc is the reviewed one: the checker's own Folang tokenizer, on which rules (b), (c), (c2), (c3), (g) stand, was written against it (change detection; a different lexer is undecided)", 15)
